@@ -331,6 +331,20 @@ func c19HistOps() []c19HistOp {
 		}
 		return "planted"
 	}})
+	ops = append(ops, c19HistOp{"parse-same-text-then-reload-that-object", func(sh *c19Shared) string {
+		// another holder parses the same text and re-uses its own object for another path: Paths are
+		// values of their holders, two Parse calls never share one
+		text := sh.paths[0].String()
+		p2, err := path.Parse(text)
+		if err != nil {
+			return "parse " + err.Error()
+		}
+		p3 := path.MustParse(text)
+		res := p2.String() + " / " + p3.String()
+		_ = p2.Scan("strict $.zz ? (@ == 1)")
+		_ = p3.UnmarshalText([]byte("$.yy"))
+		return res
+	}})
 	ops = append(ops, c19HistOp{"query-other-doc", func(sh *c19Shared) string {
 		items, err := sh.paths[0].Query(context.Background(), []any{float64(1), "z"}, sh.opts()...)
 		if err != nil {
@@ -558,7 +572,7 @@ func tail(s string, n int) string {
 // ---- run ----
 
 func runC19(r *Run) {
-	r.Rule("(a) stateless schedule exploration under a controlled cooperative scheduler (real goroutines, one runnable at a time; scheduling points = every ctx.Done() poll, i.e. every executed path item, and every lexer token for Parse): every unordered pair of entry points {Query,First,Exists,Match,String} on one shared *Path for each of 28 pool paths (regex, datetime with context zone, keyvalue, variables, nested filters, .**, subscripts, arithmetic, operands yielding an array then a scalar), every pair of pool paths sharing document and variables, triples of a 10-path core, and pairs of concurrent Parse+Query/String at token granularity; depth-first over all schedules with <= B preemptions; oracle: every call returns its solo result and the shared document/variables (incl. hidden slice capacity) are unchanged. (b) explicit-state BFS over call histories on one Path per pool path: state = reflect fingerprint of the Path (private AST fields); 10 operations (the five entry points, Value/MarshalBinary, a cancelled silent Query, Query without WithTZ, Query on another document, and calls on other Paths whose operands deliver items and then fail); all histories of <= 2 calls are extended regardless of the fingerprint (state outside the Path), longer ones while the fingerprint is new; every operation after every history returns its initial-state result. (c) each pool operation three times on equal, freshly allocated inputs. (d) supplementary: the same bodies free-running under the race detector. non-trivial = schedules with at least one preemption")
+	r.Rule("(a) stateless schedule exploration under a controlled cooperative scheduler (real goroutines, one runnable at a time; scheduling points = every ctx.Done() poll, i.e. every executed path item, and every lexer token for Parse): every unordered pair of entry points {Query,First,Exists,Match,String} on one shared *Path for each of 28 pool paths (regex, datetime with context zone, keyvalue, variables, nested filters, .**, subscripts, arithmetic, operands yielding an array then a scalar), every pair of pool paths sharing document and variables, triples of a 10-path core, and pairs of concurrent Parse+Query/String at token granularity; depth-first over all schedules with <= B preemptions; oracle: every call returns its solo result and the shared document/variables (incl. hidden slice capacity) are unchanged. (b) explicit-state BFS over call histories on one Path per pool path: state = reflect fingerprint of the Path (private AST fields); 11 operations (the five entry points, Parse of the same text by another holder who then re-loads its own object, Value/MarshalBinary, a cancelled silent Query, Query without WithTZ, Query on another document, and calls on other Paths whose operands deliver items and then fail); all histories of <= 2 calls are extended regardless of the fingerprint (state outside the Path), longer ones while the fingerprint is new; every operation after every history returns its initial-state result. (c) each pool operation three times on equal, freshly allocated inputs. (d) supplementary: the same bodies free-running under the race detector. non-trivial = schedules with at least one preemption")
 	B := 2
 	if r.Thorough() {
 		B = 3
